@@ -37,7 +37,7 @@ def classify(out):
     return "bang"
 
 
-def run_programs(rep, progs, tag, props_for_panic=("C02", "C03")):
+def run_programs(rep, progs, tag, props_for_panic=("C02", "C03"), compare_model=True):
     """progs: list of surface ASTs.  Returns (model_out, impl_out)."""
     mc = ["(prog-ty " + " ".join(sast.sx(l) for l in p) + ")" for p in progs]
     ic = ['(run-ty "' + esc(sast.program(p)) + '")' for p in progs]
@@ -46,6 +46,10 @@ def run_programs(rep, progs, tag, props_for_panic=("C02", "C03")):
     # model first: a program on which the model runs out of fuel (or time) is not sent to the
     # implementation, where it would spin until the shard timeout
     live = [k for k in range(len(progs)) if not mo[k].startswith(("!fuel", "!timeout", "!died"))]
+    if not compare_model:
+        # implementation-only use (the model is known not to be faithful on these programs): the
+        # property's own oracles (no panic, value inhabits the static type) still apply
+        live = list(range(len(progs)))
     lo = common.run_cases(common.HARNESS, [ic[k] for k in live], timeout=300)
     io = ["!skipped"] * len(progs)
     for k, o in zip(live, lo):
@@ -67,14 +71,14 @@ def run_programs(rep, progs, tag, props_for_panic=("C02", "C03")):
             rep.violations.append({"property": "C02" if panic_phase.get(k) == "exec" else "C03",
                                    "lane": tag, "what": "implementation panics: " + io[k][:160],
                                    "program": sast.program(p), "case": ic[k]})
-        if m.startswith(("!fuel", "!timeout", "!died")):
+        if m.startswith(("!fuel", "!timeout", "!died")) and compare_model:
             rep.count(f"{tag}.model-fuel")
             continue
         if i.startswith("!died") or i.startswith("!timeout"):
             # the model finished and the implementation (run on its own, see common._run_shard)
             # did not: reported as a disagreement
             rep.count(f"{tag}.impl-no-result")
-        if m != i:
+        if m != i and compare_model:
             rep.disagreements.append({"lane": tag, "case": ic[k], "model": m, "impl": i,
                                       "program": sast.program(p), "model_case": mc[k], "ast": p})
         if i.startswith("ok ") and " :: " in i:
